@@ -1,1 +1,886 @@
-//! shared helpers of this crate's checks
+//! Shared helpers of the tool checks (C32, C33, C35).
+//!
+//! The checks drive the *real* command line binaries of the repository (built by `pre/tools.sh`)
+//! over loopback TCP and the file system. Nothing in this crate depends on a dicom-rs crate: the
+//! peer side is written here and on `vx-ref` (data set codec) from PS3.5 / PS3.7 / PS3.8.
+//!
+//! * `pdu`   — minimal upper-layer PDU codec (PS3.8 section 9.3): A-ASSOCIATE-RQ/AC/RJ, P-DATA-TF,
+//!             A-RELEASE-RQ/RP, A-ABORT
+//! * `dimse` — C-STORE command sets in Implicit VR LE with a computed command group length
+//! * `proc`  — child processes that are killed on every exit path, runs with a wall-clock limit
+//! * `tree`  — file system snapshots
+//! * `dsx`   — a tiny dictionary, canonical comparison of reference data set trees
+//! * `img`   — PNG helpers on the `png` crate
+
+use std::path::PathBuf;
+
+pub fn verif_root() -> PathBuf {
+    PathBuf::from(std::env::var("VERIF_ROOT").unwrap_or_else(|_| "/verif".into()))
+}
+
+/// Where `pre/tools.sh` puts the binaries: `${VERIF_TARGET:-$VERIF_ROOT/target}/repo/release/<name>`.
+pub fn tool_path(name: &str) -> PathBuf {
+    let tgt = std::env::var("VERIF_TARGET")
+        .map(PathBuf::from)
+        .unwrap_or_else(|_| verif_root().join("target"));
+    let p = tgt.join("repo/release").join(name);
+    if !p.is_file() {
+        vx_kit::report::machinery(&format!("tool binary {} not found (pre-step tools.sh not run?)", p.display()));
+    }
+    p
+}
+
+pub fn threads() -> usize {
+    std::env::var("VERIF_THREADS")
+        .ok()
+        .and_then(|s| s.parse().ok())
+        .unwrap_or_else(|| std::thread::available_parallelism().map(|n| n.get()).unwrap_or(4))
+        .max(1)
+}
+
+// ------------------------------------------------------------------------------------------------
+pub mod pdu {
+    //! Minimal PDU codec written from PS3.8 section 9.3 (big-endian length fields).
+    use std::io::{self, Read};
+
+    #[derive(Clone, Debug, PartialEq, Eq)]
+    pub struct PcRq {
+        pub id: u8,
+        pub abs: String,
+        pub ts: Vec<String>,
+    }
+    #[derive(Clone, Debug, PartialEq, Eq)]
+    pub struct PcAc {
+        pub id: u8,
+        /// 0 acceptance, 1 user rejection, 2 no reason, 3 abstract syntax not supported,
+        /// 4 transfer syntaxes not supported
+        pub result: u8,
+        pub ts: String,
+    }
+    #[derive(Clone, Debug, PartialEq, Eq)]
+    pub struct Assoc<P> {
+        pub called: String,
+        pub calling: String,
+        pub app_ctx: String,
+        pub pcs: Vec<P>,
+        pub max_pdu: u32,
+        pub impl_uid: String,
+        pub impl_version: Option<String>,
+    }
+    #[derive(Clone, Debug, PartialEq, Eq)]
+    pub struct Pdv {
+        pub pc: u8,
+        pub command: bool,
+        pub last: bool,
+        pub data: Vec<u8>,
+    }
+    #[derive(Clone, Debug, PartialEq, Eq)]
+    pub enum Pdu {
+        Rq(Assoc<PcRq>),
+        Ac(Assoc<PcAc>),
+        Rj { result: u8, source: u8, reason: u8 },
+        PData(Vec<Pdv>),
+        ReleaseRq,
+        ReleaseRp,
+        Abort { source: u8, reason: u8 },
+        Unknown(u8, Vec<u8>),
+    }
+
+    pub const APP_CTX: &str = "1.2.840.10008.3.1.1.1";
+
+    impl Pdu {
+        pub fn short(&self) -> String {
+            match self {
+                Pdu::Rq(a) => format!("A-ASSOCIATE-RQ({} pcs)", a.pcs.len()),
+                Pdu::Ac(a) => format!("A-ASSOCIATE-AC({} pcs)", a.pcs.len()),
+                Pdu::Rj { result, source, reason } => format!("A-ASSOCIATE-RJ({result},{source},{reason})"),
+                Pdu::PData(v) => format!(
+                    "P-DATA[{}]",
+                    v.iter()
+                        .map(|p| format!("pc{}{}{}:{}", p.pc, if p.command { "C" } else { "D" }, if p.last { "L" } else { "" }, p.data.len()))
+                        .collect::<Vec<_>>()
+                        .join(",")
+                ),
+                Pdu::ReleaseRq => "A-RELEASE-RQ".into(),
+                Pdu::ReleaseRp => "A-RELEASE-RP".into(),
+                Pdu::Abort { source, reason } => format!("A-ABORT({source},{reason})"),
+                Pdu::Unknown(t, b) => format!("UNKNOWN(type {t}, {} bytes)", b.len()),
+            }
+        }
+    }
+
+    fn item(out: &mut Vec<u8>, ty: u8, body: &[u8]) {
+        out.push(ty);
+        out.push(0);
+        out.extend_from_slice(&(body.len() as u16).to_be_bytes());
+        out.extend_from_slice(body);
+    }
+    fn ae(out: &mut Vec<u8>, t: &str) {
+        let mut b = t.as_bytes().to_vec();
+        b.resize(16, b' ');
+        out.extend_from_slice(&b[..16]);
+    }
+    fn frame(ty: u8, body: Vec<u8>) -> Vec<u8> {
+        let mut out = vec![ty, 0];
+        out.extend_from_slice(&(body.len() as u32).to_be_bytes());
+        out.extend(body);
+        out
+    }
+    fn assoc_head<P>(a: &Assoc<P>) -> Vec<u8> {
+        let mut b = vec![0, 1, 0, 0];
+        ae(&mut b, &a.called);
+        ae(&mut b, &a.calling);
+        b.extend_from_slice(&[0u8; 32]);
+        item(&mut b, 0x10, a.app_ctx.as_bytes());
+        b
+    }
+    fn user_info<P>(a: &Assoc<P>) -> Vec<u8> {
+        let mut u = vec![];
+        item(&mut u, 0x51, &a.max_pdu.to_be_bytes());
+        item(&mut u, 0x52, a.impl_uid.as_bytes());
+        if let Some(v) = &a.impl_version {
+            item(&mut u, 0x55, v.as_bytes());
+        }
+        u
+    }
+
+    pub fn encode(p: &Pdu) -> Vec<u8> {
+        match p {
+            Pdu::Rq(a) => {
+                let mut b = assoc_head(a);
+                for pc in &a.pcs {
+                    let mut i = vec![pc.id, 0, 0, 0];
+                    item(&mut i, 0x30, pc.abs.as_bytes());
+                    for t in &pc.ts {
+                        item(&mut i, 0x40, t.as_bytes());
+                    }
+                    item(&mut b, 0x20, &i);
+                }
+                item(&mut b, 0x50, &user_info(a));
+                frame(1, b)
+            }
+            Pdu::Ac(a) => {
+                let mut b = assoc_head(a);
+                for pc in &a.pcs {
+                    let mut i = vec![pc.id, 0, pc.result, 0];
+                    item(&mut i, 0x40, pc.ts.as_bytes());
+                    item(&mut b, 0x21, &i);
+                }
+                item(&mut b, 0x50, &user_info(a));
+                frame(2, b)
+            }
+            Pdu::Rj { result, source, reason } => frame(3, vec![0, *result, *source, *reason]),
+            Pdu::PData(pdvs) => {
+                let mut b = vec![];
+                for v in pdvs {
+                    b.extend_from_slice(&((v.data.len() + 2) as u32).to_be_bytes());
+                    b.push(v.pc);
+                    b.push((v.command as u8) | ((v.last as u8) << 1));
+                    b.extend_from_slice(&v.data);
+                }
+                frame(4, b)
+            }
+            Pdu::ReleaseRq => frame(5, vec![0; 4]),
+            Pdu::ReleaseRp => frame(6, vec![0; 4]),
+            Pdu::Abort { source, reason } => frame(7, vec![0, 0, *source, *reason]),
+            Pdu::Unknown(t, b) => frame(*t, b.clone()),
+        }
+    }
+
+    fn bad<T>(m: impl Into<String>) -> io::Result<T> {
+        Err(io::Error::new(io::ErrorKind::InvalidData, m.into()))
+    }
+    fn uid(b: &[u8]) -> String {
+        String::from_utf8_lossy(b).trim_end_matches(['\0', ' ']).to_string()
+    }
+    /// split a run of (type, reserved, u16 length, body) items
+    fn items(mut b: &[u8]) -> io::Result<Vec<(u8, &[u8])>> {
+        let mut out = vec![];
+        while !b.is_empty() {
+            if b.len() < 4 {
+                return bad("truncated item header");
+            }
+            let l = u16::from_be_bytes([b[2], b[3]]) as usize;
+            if b.len() < 4 + l {
+                return bad("item length exceeds its container");
+            }
+            out.push((b[0], &b[4..4 + l]));
+            b = &b[4 + l..];
+        }
+        Ok(out)
+    }
+
+    fn parse_assoc(body: &[u8], ac: bool) -> io::Result<Pdu> {
+        if body.len() < 68 {
+            return bad("association PDU shorter than its fixed part");
+        }
+        let called = String::from_utf8_lossy(&body[4..20]).trim().to_string();
+        let calling = String::from_utf8_lossy(&body[20..36]).trim().to_string();
+        let mut app_ctx = String::new();
+        let mut rq = vec![];
+        let mut acs = vec![];
+        let mut max_pdu = 0;
+        let mut impl_uid = String::new();
+        let mut impl_version = None;
+        for (ty, b) in items(&body[68..])? {
+            match ty {
+                0x10 => app_ctx = uid(b),
+                0x20 if !ac => {
+                    if b.len() < 4 {
+                        return bad("short presentation context item");
+                    }
+                    let mut pc = PcRq { id: b[0], abs: String::new(), ts: vec![] };
+                    for (st, sb) in items(&b[4..])? {
+                        match st {
+                            0x30 => pc.abs = uid(sb),
+                            0x40 => pc.ts.push(uid(sb)),
+                            _ => return bad(format!("unexpected sub-item {st:#x} in presentation context")),
+                        }
+                    }
+                    rq.push(pc);
+                }
+                0x21 if ac => {
+                    if b.len() < 4 {
+                        return bad("short presentation context item");
+                    }
+                    let mut pc = PcAc { id: b[0], result: b[2], ts: String::new() };
+                    for (st, sb) in items(&b[4..])? {
+                        if st == 0x40 {
+                            pc.ts = uid(sb);
+                        } else {
+                            return bad(format!("unexpected sub-item {st:#x} in presentation context result"));
+                        }
+                    }
+                    acs.push(pc);
+                }
+                0x50 => {
+                    for (st, sb) in items(b)? {
+                        match st {
+                            0x51 if sb.len() == 4 => max_pdu = u32::from_be_bytes([sb[0], sb[1], sb[2], sb[3]]),
+                            0x52 => impl_uid = uid(sb),
+                            0x55 => impl_version = Some(uid(sb)),
+                            _ => {}
+                        }
+                    }
+                }
+                _ => return bad(format!("unexpected item {ty:#x} in association PDU")),
+            }
+        }
+        Ok(if ac {
+            Pdu::Ac(Assoc { called, calling, app_ctx, pcs: acs, max_pdu, impl_uid, impl_version })
+        } else {
+            Pdu::Rq(Assoc { called, calling, app_ctx, pcs: rq, max_pdu, impl_uid, impl_version })
+        })
+    }
+
+    pub fn parse_body(ty: u8, body: &[u8]) -> io::Result<Pdu> {
+        Ok(match ty {
+            1 => parse_assoc(body, false)?,
+            2 => parse_assoc(body, true)?,
+            3 if body.len() == 4 => Pdu::Rj { result: body[1], source: body[2], reason: body[3] },
+            4 => {
+                let mut b = body;
+                let mut pdvs = vec![];
+                while !b.is_empty() {
+                    if b.len() < 6 {
+                        return bad("truncated PDV header");
+                    }
+                    let l = u32::from_be_bytes([b[0], b[1], b[2], b[3]]) as usize;
+                    if l < 2 || b.len() < 4 + l {
+                        return bad("PDV length does not fit the PDU");
+                    }
+                    if b[5] & !3 != 0 {
+                        return bad("reserved bits set in message control header");
+                    }
+                    pdvs.push(Pdv { pc: b[4], command: b[5] & 1 != 0, last: b[5] & 2 != 0, data: b[6..4 + l].to_vec() });
+                    b = &b[4 + l..];
+                }
+                Pdu::PData(pdvs)
+            }
+            5 if body.len() == 4 => Pdu::ReleaseRq,
+            6 if body.len() == 4 => Pdu::ReleaseRp,
+            7 if body.len() == 4 => Pdu::Abort { source: body[2], reason: body[3] },
+            _ => Pdu::Unknown(ty, body.to_vec()),
+        })
+    }
+
+    /// Read one PDU. `Ok(None)` = the peer closed the connection before the first header byte.
+    pub fn read_pdu(r: &mut impl Read) -> io::Result<Option<Pdu>> {
+        let mut h = [0u8; 6];
+        let mut got = 0;
+        while got < 6 {
+            let n = r.read(&mut h[got..])?;
+            if n == 0 {
+                if got == 0 {
+                    return Ok(None);
+                }
+                return bad("connection closed inside a PDU header");
+            }
+            got += n;
+        }
+        let len = u32::from_be_bytes([h[2], h[3], h[4], h[5]]) as usize;
+        if len > 1 << 24 {
+            return bad(format!("implausible PDU length {len}"));
+        }
+        let mut body = vec![0u8; len];
+        r.read_exact(&mut body)?;
+        parse_body(h[0], &body).map(Some)
+    }
+
+    #[cfg(test)]
+    mod tests {
+        use super::*;
+        #[test]
+        fn roundtrip() {
+            let rq = Pdu::Rq(Assoc {
+                called: "ANY-SCP".into(),
+                calling: "ME".into(),
+                app_ctx: APP_CTX.into(),
+                pcs: vec![PcRq { id: 1, abs: "1.2.3".into(), ts: vec!["1.2.840.10008.1.2".into(), "1.2.840.10008.1.2.1".into()] }],
+                max_pdu: 16384,
+                impl_uid: "1.2.3.4".into(),
+                impl_version: Some("V".into()),
+            });
+            let ac = Pdu::Ac(Assoc {
+                called: "ANY-SCP".into(),
+                calling: "ME".into(),
+                app_ctx: APP_CTX.into(),
+                pcs: vec![PcAc { id: 1, result: 0, ts: "1.2.840.10008.1.2".into() }],
+                max_pdu: 0,
+                impl_uid: "1.2.3.4".into(),
+                impl_version: None,
+            });
+            let pd = Pdu::PData(vec![
+                Pdv { pc: 1, command: true, last: true, data: vec![1, 2, 3] },
+                Pdv { pc: 3, command: false, last: false, data: vec![] },
+            ]);
+            for p in [rq, ac, pd, Pdu::ReleaseRq, Pdu::ReleaseRp, Pdu::Abort { source: 2, reason: 1 }, Pdu::Rj { result: 1, source: 1, reason: 3 }] {
+                let b = encode(&p);
+                let q = read_pdu(&mut &b[..]).unwrap().unwrap();
+                assert_eq!(p, q);
+            }
+            // fixed bytes of a release request (PS3.8 table 9-24)
+            assert_eq!(encode(&Pdu::ReleaseRq), vec![5, 0, 0, 0, 0, 4, 0, 0, 0, 0]);
+            assert_eq!(
+                encode(&Pdu::PData(vec![Pdv { pc: 5, command: true, last: true, data: vec![9] }])),
+                vec![4, 0, 0, 0, 0, 7, 0, 0, 0, 3, 5, 3, 9]
+            );
+        }
+    }
+}
+
+// ------------------------------------------------------------------------------------------------
+pub mod dimse {
+    //! C-STORE command sets (PS3.7 section 9.3.1, Annex E): Implicit VR LE, ascending tags,
+    //! (0000,0000) = number of bytes that follow it.
+    use vx_ref::ds::{encode_items, parse, RElem, RVal, Tag, Ts, Vr};
+
+    fn us(tag: Tag, v: u16) -> RElem {
+        RElem::prim(tag, "US", &v.to_le_bytes())
+    }
+    fn finish(rest: Vec<RElem>) -> Vec<u8> {
+        let body = encode_items(Ts::ImplicitLE, &rest);
+        let mut out = encode_items(Ts::ImplicitLE, &[RElem::prim((0, 0), "UL", &(body.len() as u32).to_le_bytes())]);
+        out.extend(body);
+        out
+    }
+    /// `uid` bytes are written as given (padded with one NUL when odd)
+    pub fn c_store_rq(sop_class: &str, sop_instance: &[u8], msg_id: u16) -> Vec<u8> {
+        finish(vec![
+            RElem::prim((0, 0x0002), "UI", sop_class.as_bytes()),
+            us((0, 0x0100), 0x0001),
+            us((0, 0x0110), msg_id),
+            us((0, 0x0700), 0),
+            us((0, 0x0800), 0x0000),
+            RElem::prim((0, 0x1000), "UI", sop_instance),
+        ])
+    }
+    pub fn c_store_rsp(sop_class: &str, sop_instance: &[u8], msg_id: u16, status: u16) -> Vec<u8> {
+        finish(vec![
+            RElem::prim((0, 0x0002), "UI", sop_class.as_bytes()),
+            us((0, 0x0100), 0x8001),
+            us((0, 0x0120), msg_id),
+            us((0, 0x0800), 0x0101),
+            us((0, 0x0900), status),
+            RElem::prim((0, 0x1000), "UI", sop_instance),
+        ])
+    }
+
+    #[derive(Debug, Clone, Default, PartialEq, Eq)]
+    pub struct Command {
+        pub group_length: Option<u32>,
+        /// bytes that really follow the group length element
+        pub bytes_after_group_length: usize,
+        pub field: Option<u16>,
+        pub msg_id: Option<u16>,
+        pub msg_id_responded: Option<u16>,
+        pub data_set_type: Option<u16>,
+        pub status: Option<u16>,
+        pub sop_class: Option<String>,
+        pub sop_instance: Option<String>,
+    }
+
+    fn cmd_vr(t: Tag) -> Option<Vr> {
+        Some(match t {
+            (0, 0) => *b"UL",
+            (0, 0x0002) | (0, 0x0003) | (0, 0x1000) | (0, 0x1001) => *b"UI",
+            (0, 0x0600) | (0, 0x1030) => *b"AE",
+            (0, 0x0902) => *b"LO",
+            (0, 0x0901) => *b"AT",
+            (0, _) => *b"US",
+            _ => return None,
+        })
+    }
+
+    pub fn parse_command(b: &[u8]) -> Result<Command, String> {
+        let els = parse(Ts::ImplicitLE, b, &cmd_vr).map_err(|e| e.to_string())?;
+        let mut c = Command::default();
+        let u16of = |v: &RVal| match v {
+            RVal::Prim(b) if b.len() == 2 => Some(u16::from_le_bytes([b[0], b[1]])),
+            _ => None,
+        };
+        let strof = |v: &RVal| match v {
+            RVal::Prim(b) => Some(String::from_utf8_lossy(b).trim_end_matches(['\0', ' ']).to_string()),
+            _ => None,
+        };
+        for e in &els {
+            if e.tag.0 != 0 {
+                return Err(format!("non-command element {:04X?} in command set", e.tag));
+            }
+            match e.tag.1 {
+                0 => {
+                    if let RVal::Prim(b) = &e.val {
+                        if b.len() == 4 {
+                            c.group_length = Some(u32::from_le_bytes([b[0], b[1], b[2], b[3]]));
+                        }
+                    }
+                }
+                0x0002 => c.sop_class = strof(&e.val),
+                0x0100 => c.field = u16of(&e.val),
+                0x0110 => c.msg_id = u16of(&e.val),
+                0x0120 => c.msg_id_responded = u16of(&e.val),
+                0x0800 => c.data_set_type = u16of(&e.val),
+                0x0900 => c.status = u16of(&e.val),
+                0x1000 => c.sop_instance = strof(&e.val),
+                _ => {}
+            }
+        }
+        c.bytes_after_group_length = b.len().saturating_sub(12);
+        Ok(c)
+    }
+
+    #[cfg(test)]
+    mod tests {
+        use super::*;
+        #[test]
+        fn group_length() {
+            let b = c_store_rq("1.2.840.10008.5.1.4.1.1.2", b"1.2.3", 7);
+            let c = parse_command(&b).unwrap();
+            assert_eq!(c.group_length, Some((b.len() - 12) as u32));
+            assert_eq!(c.field, Some(1));
+            assert_eq!(c.msg_id, Some(7));
+            assert_eq!(c.sop_instance.as_deref(), Some("1.2.3"));
+            // first element: tag 0000,0000 length 4
+            assert_eq!(&b[..8], &[0, 0, 0, 0, 4, 0, 0, 0]);
+        }
+    }
+}
+
+// ------------------------------------------------------------------------------------------------
+pub mod proc {
+    //! Child processes. Every child is put under `Proc`, whose `Drop` kills and reaps it; children
+    //! also get PR_SET_PDEATHSIG(SIGKILL) so that they cannot outlive a killed harness.
+    use std::os::unix::process::CommandExt;
+    use std::path::Path;
+    use std::process::{Child, Command, ExitStatus, Stdio};
+    use std::time::{Duration, Instant};
+
+    pub struct Proc {
+        pub child: Child,
+    }
+    impl Proc {
+        pub fn kill(&mut self) {
+            let _ = self.child.kill();
+            let _ = self.child.wait();
+        }
+        /// Wait until exit or the deadline. None = still running (it is NOT killed here).
+        pub fn wait_deadline(&mut self, limit: Duration) -> Option<ExitStatus> {
+            let t0 = Instant::now();
+            let mut nap = Duration::from_micros(200);
+            loop {
+                match self.child.try_wait() {
+                    Ok(Some(st)) => return Some(st),
+                    Ok(None) => {}
+                    Err(_) => return None,
+                }
+                if t0.elapsed() > limit {
+                    return None;
+                }
+                std::thread::sleep(nap);
+                nap = (nap * 2).min(Duration::from_millis(5));
+            }
+        }
+        pub fn exited(&mut self) -> Option<ExitStatus> {
+            self.child.try_wait().ok().flatten()
+        }
+    }
+    impl Drop for Proc {
+        fn drop(&mut self) {
+            self.kill();
+        }
+    }
+
+    /// Where the child's stdout+stderr go.
+    pub enum Out<'a> {
+        Null,
+        Inherit,
+        File(&'a Path),
+    }
+
+    pub fn spawn(exe: &Path, args: &[&str], cwd: &Path, out: Out<'_>) -> std::io::Result<Proc> {
+        let mut c = Command::new(exe);
+        c.args(args).current_dir(cwd).stdin(Stdio::null());
+        // many tool processes run side by side: keep each one's data-parallel pool small
+        c.env_remove("RUST_LOG").env("NO_COLOR", "1").env("RAYON_NUM_THREADS", "2");
+        match out {
+            Out::Null => {
+                c.stdout(Stdio::null()).stderr(Stdio::null());
+            }
+            Out::Inherit => {
+                c.stdout(Stdio::inherit()).stderr(Stdio::inherit());
+            }
+            Out::File(p) => {
+                let f = std::fs::File::create(p)?;
+                let g = f.try_clone()?;
+                c.stdout(f).stderr(g);
+            }
+        }
+        unsafe {
+            c.pre_exec(|| {
+                libc::prctl(libc::PR_SET_PDEATHSIG, libc::SIGKILL);
+                Ok(())
+            });
+        }
+        Ok(Proc { child: c.spawn()? })
+    }
+
+    /// Result of a bounded run.
+    #[derive(Debug, Clone, PartialEq, Eq)]
+    pub enum Ran {
+        Exit(i32),
+        Signal,
+        Timeout,
+    }
+    impl Ran {
+        pub fn describe(&self) -> String {
+            match self {
+                Ran::Exit(c) => format!("exit {c}"),
+                Ran::Signal => "killed by signal".into(),
+                Ran::Timeout => "timeout".into(),
+            }
+        }
+    }
+    pub fn status_of(st: Option<ExitStatus>) -> Ran {
+        match st {
+            None => Ran::Timeout,
+            Some(s) => match s.code() {
+                Some(c) => Ran::Exit(c),
+                None => Ran::Signal,
+            },
+        }
+    }
+
+    /// Run to completion with a wall-clock limit; a process still running at the limit is killed.
+    pub fn run(exe: &Path, args: &[&str], cwd: &Path, out: Out<'_>, limit: Duration) -> std::io::Result<Ran> {
+        let mut p = spawn(exe, args, cwd, out)?;
+        let st = p.wait_deadline(limit);
+        Ok(status_of(st))
+    }
+}
+
+// ------------------------------------------------------------------------------------------------
+pub mod tree {
+    use std::collections::BTreeMap;
+    use std::path::Path;
+
+    #[derive(Clone, Debug, PartialEq, Eq)]
+    pub enum Entry {
+        Dir,
+        File(u64, u64), // length, content hash
+        Other,
+    }
+    /// Recursive snapshot: path relative to `root` → entry. Symlinks are not followed.
+    pub fn snapshot(root: &Path) -> BTreeMap<String, Entry> {
+        fn walk(root: &Path, dir: &Path, out: &mut BTreeMap<String, Entry>) {
+            let Ok(rd) = std::fs::read_dir(dir) else { return };
+            for e in rd.flatten() {
+                let p = e.path();
+                let rel = p.strip_prefix(root).unwrap().to_string_lossy().into_owned();
+                let Ok(md) = std::fs::symlink_metadata(&p) else { continue };
+                if md.is_dir() {
+                    out.insert(rel, Entry::Dir);
+                    walk(root, &p, out);
+                } else if md.is_file() {
+                    let data = std::fs::read(&p).unwrap_or_default();
+                    out.insert(rel, Entry::File(data.len() as u64, vx_kit::hash_of(&data)));
+                } else {
+                    out.insert(rel, Entry::Other);
+                }
+            }
+        }
+        let mut out = BTreeMap::new();
+        walk(root, root, &mut out);
+        out
+    }
+    /// Paths that are new or whose entry changed.
+    pub fn changed(before: &BTreeMap<String, Entry>, after: &BTreeMap<String, Entry>) -> Vec<String> {
+        let mut v: Vec<String> = after.iter().filter(|(k, e)| before.get(*k) != Some(e)).map(|(k, _)| k.clone()).collect();
+        v.extend(before.keys().filter(|k| !after.contains_key(*k)).map(|k| format!("-{k}")));
+        v
+    }
+}
+
+// ------------------------------------------------------------------------------------------------
+pub mod dsx {
+    //! Dictionary subset for Implicit VR and the canonical comparison of reference trees.
+    use vx_ref::ds::{RElem, RItem, RVal, Tag, Vr};
+
+    /// VRs of the (few) standard tags the tool checks put in their data sets (PS3.6).
+    pub fn vr_of(t: Tag) -> Option<Vr> {
+        Some(match t {
+            (0x0008, 0x0016) | (0x0008, 0x0018) | (0x0008, 0x1150) | (0x0008, 0x1155) | (0x0020, 0x000D) | (0x0020, 0x000E) => *b"UI",
+            (0x0008, 0x0008) | (0x0008, 0x0060) | (0x0028, 0x0004) | (0x2050, 0x0020) => *b"CS",
+            (0x0008, 0x0020) => *b"DA",
+            (0x0008, 0x0030) => *b"TM",
+            (0x0008, 0x0050) | (0x0020, 0x0010) => *b"SH",
+            (0x0008, 0x1140) | (0x0008, 0x1115) | (0x0040, 0x0275) => *b"SQ",
+            (0x0010, 0x0010) => *b"PN",
+            (0x0010, 0x0020) | (0x0008, 0x0070) | (0x0008, 0x103E) | (0x0009, 0x0010) => *b"LO",
+            (0x0020, 0x0013) | (0x0028, 0x0008) => *b"IS",
+            (0x0028, 0x1050) | (0x0028, 0x1051) | (0x0028, 0x1052) | (0x0028, 0x1053) => *b"DS",
+            (0x0028, 0x0002) | (0x0028, 0x0006) | (0x0028, 0x0010) | (0x0028, 0x0011) | (0x0028, 0x0100) | (0x0028, 0x0101) | (0x0028, 0x0102)
+            | (0x0028, 0x0103) | (0x0028, 0x0106) | (0x0028, 0x0107) => *b"US",
+            (0x0028, 0x1054) => *b"LO",
+            (0x7FE0, 0x0010) => *b"OW",
+            _ => return None,
+        })
+    }
+
+    fn is_text(v: Vr) -> bool {
+        matches!(
+            &v,
+            b"AE" | b"AS" | b"CS" | b"DA" | b"DS" | b"DT" | b"IS" | b"LO" | b"LT" | b"PN" | b"SH" | b"ST" | b"TM" | b"UC" | b"UI" | b"UR" | b"UT"
+        )
+    }
+
+    /// Canonical form: recorded lengths dropped; trailing padding of text values removed
+    /// (space, and NUL for UI); binary values compared with their even padding; when `implicit`
+    /// is set, VRs are replaced by what an Implicit VR reader with `vr_of` would see.
+    pub fn canon(elems: &[RElem], implicit: bool) -> Vec<RElem> {
+        elems
+            .iter()
+            .map(|e| {
+                let vr = if implicit {
+                    match (&e.val, vr_of(e.tag)) {
+                        (RVal::Seq { .. }, _) => *b"SQ",
+                        (_, Some(v)) => v,
+                        (_, None) => *b"UN",
+                    }
+                } else {
+                    e.vr
+                };
+                let val = match &e.val {
+                    RVal::Prim(b) => {
+                        let mut b = b.clone();
+                        if is_text(vr) || (implicit && is_text(e.vr)) {
+                            while matches!(b.last(), Some(b' ') | Some(0)) {
+                                b.pop();
+                            }
+                        } else if b.len() % 2 == 1 {
+                            b.push(0);
+                        }
+                        RVal::Prim(b)
+                    }
+                    RVal::Seq { items, .. } => RVal::Seq {
+                        items: items.iter().map(|it| RItem { elems: canon(&it.elems, implicit), explicit: false }).collect(),
+                        explicit: false,
+                    },
+                    RVal::Pix { offsets, frags } => RVal::Pix {
+                        offsets: offsets.clone(),
+                        frags: frags
+                            .iter()
+                            .map(|f| {
+                                let mut f = f.clone();
+                                if f.len() % 2 == 1 {
+                                    f.push(0);
+                                }
+                                f
+                            })
+                            .collect(),
+                    },
+                };
+                RElem { tag: e.tag, vr, val }
+            })
+            .collect()
+    }
+
+    pub fn find<'a>(elems: &'a [RElem], tag: Tag) -> Option<&'a RElem> {
+        elems.iter().find(|e| e.tag == tag)
+    }
+    pub fn prim<'a>(elems: &'a [RElem], tag: Tag) -> Option<&'a [u8]> {
+        match &find(elems, tag)?.val {
+            RVal::Prim(b) => Some(b),
+            _ => None,
+        }
+    }
+    /// text value with trailing padding removed
+    pub fn text(elems: &[RElem], tag: Tag) -> Option<String> {
+        prim(elems, tag).map(|b| String::from_utf8_lossy(b).trim_end_matches(['\0', ' ']).to_string())
+    }
+    pub fn u16v(elems: &[RElem], tag: Tag) -> Option<u16> {
+        match prim(elems, tag)? {
+            [a, b] => Some(u16::from_le_bytes([*a, *b])),
+            _ => None,
+        }
+    }
+
+    /// readable one-line rendering for failure details
+    pub fn show(elems: &[RElem]) -> String {
+        fn val(v: &RVal) -> String {
+            match v {
+                RVal::Prim(b) => {
+                    if b.len() <= 24 && b.iter().all(|c| (0x20..0x7f).contains(c)) {
+                        format!("{:?}", String::from_utf8_lossy(b))
+                    } else if b.len() <= 16 {
+                        format!("{b:02X?}")
+                    } else {
+                        format!("{} bytes #{:x}", b.len(), vx_kit::hash_of(b) & 0xffff)
+                    }
+                }
+                RVal::Seq { items, .. } => format!("[{}]", items.iter().map(|i| format!("{{{}}}", show(&i.elems))).collect::<Vec<_>>().join(",")),
+                RVal::Pix { offsets, frags } => format!("pix(bot={offsets:?}, frags={:?})", frags.iter().map(|f| f.len()).collect::<Vec<_>>()),
+            }
+        }
+        elems
+            .iter()
+            .map(|e| format!("({:04X},{:04X}){}={}", e.tag.0, e.tag.1, String::from_utf8_lossy(&e.vr), val(&e.val)))
+            .collect::<Vec<_>>()
+            .join(" ")
+    }
+}
+
+// ------------------------------------------------------------------------------------------------
+pub mod img {
+    //! PNG files written and read with the `png` crate (the PNG codec is not under test).
+    use std::path::Path;
+
+    #[derive(Clone, Copy, Debug, PartialEq, Eq, Hash)]
+    pub enum Color {
+        L8,
+        L16,
+        Rgb8,
+        Rgb16,
+    }
+    impl Color {
+        pub const ALL: [Color; 4] = [Color::L8, Color::L16, Color::Rgb8, Color::Rgb16];
+        pub fn name(self) -> &'static str {
+            match self {
+                Color::L8 => "L8",
+                Color::L16 => "L16",
+                Color::Rgb8 => "RGB8",
+                Color::Rgb16 => "RGB16",
+            }
+        }
+        pub fn channels(self) -> usize {
+            match self {
+                Color::L8 | Color::L16 => 1,
+                _ => 3,
+            }
+        }
+        pub fn bits(self) -> u16 {
+            match self {
+                Color::L8 | Color::Rgb8 => 8,
+                _ => 16,
+            }
+        }
+    }
+
+    /// An image as channel samples in row-major, pixel-interleaved order.
+    #[derive(Clone, Debug, PartialEq, Eq, Hash)]
+    pub struct Image {
+        pub color: Color,
+        pub w: u32,
+        pub h: u32,
+        pub samples: Vec<u16>,
+    }
+
+    pub fn encode_png(im: &Image) -> Vec<u8> {
+        let mut out = vec![];
+        {
+            let mut e = png::Encoder::new(&mut out, im.w, im.h);
+            e.set_color(if im.color.channels() == 1 { png::ColorType::Grayscale } else { png::ColorType::Rgb });
+            e.set_depth(if im.color.bits() == 8 { png::BitDepth::Eight } else { png::BitDepth::Sixteen });
+            let mut w = e.write_header().expect("png header");
+            let mut data = vec![];
+            for s in &im.samples {
+                if im.color.bits() == 8 {
+                    data.push(*s as u8);
+                } else {
+                    data.extend_from_slice(&s.to_be_bytes()); // PNG samples are big-endian
+                }
+            }
+            w.write_image_data(&data).expect("png data");
+        }
+        out
+    }
+
+    /// Decode without any transformation (no expansion, no 16→8 stripping).
+    pub fn decode_png(bytes: &[u8]) -> Result<Image, String> {
+        let mut d = png::Decoder::new(std::io::Cursor::new(bytes));
+        d.set_transformations(png::Transformations::IDENTITY);
+        let mut r = d.read_info().map_err(|e| format!("png header: {e}"))?;
+        let size = r.output_buffer_size().ok_or("png: no buffer size")?;
+        let mut buf = vec![0u8; size];
+        let info = r.next_frame(&mut buf).map_err(|e| format!("png frame: {e}"))?;
+        let color = match (info.color_type, info.bit_depth) {
+            (png::ColorType::Grayscale, png::BitDepth::Eight) => Color::L8,
+            (png::ColorType::Grayscale, png::BitDepth::Sixteen) => Color::L16,
+            (png::ColorType::Rgb, png::BitDepth::Eight) => Color::Rgb8,
+            (png::ColorType::Rgb, png::BitDepth::Sixteen) => Color::Rgb16,
+            (c, d) => return Err(format!("png colour type {c:?}/{d:?} is none of L8, L16, RGB8, RGB16")),
+        };
+        let buf = &buf[..info.buffer_size()];
+        let samples: Vec<u16> = if color.bits() == 8 {
+            buf.iter().map(|b| *b as u16).collect()
+        } else {
+            buf.chunks_exact(2).map(|c| u16::from_be_bytes([c[0], c[1]])).collect()
+        };
+        Ok(Image { color, w: info.width, h: info.height, samples })
+    }
+
+    pub fn read_png(p: &Path) -> Result<Image, String> {
+        let b = std::fs::read(p).map_err(|e| format!("{}: {e}", p.display()))?;
+        decode_png(&b)
+    }
+
+    #[cfg(test)]
+    mod tests {
+        use super::*;
+        #[test]
+        fn roundtrip() {
+            for color in Color::ALL {
+                let n = 6 * color.channels();
+                let samples: Vec<u16> = (0..n).map(|i| if color.bits() == 8 { (i * 13) as u16 } else { (i * 4000 + 0x0102) as u16 }).collect();
+                let im = Image { color, w: 3, h: 2, samples };
+                assert_eq!(decode_png(&encode_png(&im)).unwrap(), im);
+            }
+        }
+    }
+}
+
+/// Bind an ephemeral loopback port, release it and return its number (the tool under test binds
+/// it next; the caller retries with another port if the tool could not).
+pub fn free_port() -> u16 {
+    let l = std::net::TcpListener::bind(("127.0.0.1", 0)).expect("bind port 0");
+    l.local_addr().unwrap().port()
+}
